@@ -434,6 +434,21 @@ def rewrite_tokens(src, modpath, report):
             bump('R7')
             k = e2
             continue
+        # R13  generic bounds `Into<String>` / `Into<Addr>`  ->  shim traits with the same method and a spec
+        j = seq_match(toks, k, [':', 'Into', '<', None])
+        if j > 0 and toks[j].text in ('>', '>>'):
+            a = next_code(toks, k)
+            ty = toks[next_code(toks, next_code(toks, a))].text
+            end = toks[j].start + 1       # `>>` closes two generic lists; only the first `>` is ours
+            if ty == 'String':
+                edits.append((toks[a].start, end, 'crate::shim::flat::conv::IntoStringS'))
+            elif ty == 'Addr':
+                edits.append((toks[a].start, end, 'crate::shim::flat::conv::IntoAddrS'))
+            else:
+                raise GenError('R13: bound Into<%s> has no shim trait' % ty)
+            bump('R13')
+            k = j + 1
+            continue
         # R11  &mut dyn Storage / &dyn Storage
         if t.text == 'dyn' and toks[next_code(toks, k)].text == 'Storage':
             j = next_code(toks, k)
